@@ -149,9 +149,19 @@ impl ClientSession {
             }
             "cli.transition" => {
                 let target = state_of(get(&kv, "to").unwrap_or(""))?;
+                let since = self.client.as_ref().unwrap().verif_time_since_successful_connect();
                 let r = self.client.as_mut().unwrap().transition_to_state(target);
                 let text = match &r { Ok(()) => "ok".to_string(), Err(e) => format!("err:{}", error_kind(e)) };
-                Ok(self.status(&text))
+                let mut status = self.status(&text);
+                if get(&kv, "measure").is_some() {
+                    // the wall-clock age of the connection as the client is about to see it (input of the stability rule)
+                    status.push_str(&match since { Some(d) => format!(" since={}", d.as_nanos()), None => " since=none".to_string() });
+                }
+                Ok(status)
+            }
+            "cli.sleep" => {
+                std::thread::sleep(std::time::Duration::from_millis(get_num::<u64>(&kv, "ms")?.unwrap_or(0)));
+                Ok("res=ok".to_string())
             }
             "cli.error" => {
                 // the drivers record transport-level failures with apply_error before changing state
